@@ -52,6 +52,10 @@ type Tracker struct {
 	Kind   string    // fail hang delay server-dies-before server-dies-after kill-after session-expire dcs-fail
 	Hit    bool
 	OnHit  func() // extra action at the hit (outside mutexes where possible)
+	// OnInject is told about the injection at the very moment it happens. For SQL boundaries it runs
+	// under the world mutex (w is non-nil) and must not lock the world again; for kill-after it runs
+	// after the statement took effect.
+	OnInject func(b Boundary, kind string, w *world.World)
 }
 
 // NewTracker installs the hooks; it records nothing until Reset.
@@ -121,6 +125,19 @@ func (t *Tracker) sql(c *world.StmtCtx) (world.FaultAction, bool) {
 	s := t.sc.S
 	host := c.Host
 	s.W.LogLocked(world.Event{Kind: "world", Who: "harness", Host: host, Class: "inject:" + t.Kind, Arg: b.Key()})
+	onInject := t.OnInject
+	kindNow := t.Kind
+	notify := func(w *world.World) {
+		if onInject != nil {
+			onInject(b, kindNow, w)
+		}
+	}
+	if kindNow != "kill-after" && kindNow != "server-dies-after" {
+		// the monitor mutexes are ordered after the world mutex, the tracker's mutex is a leaf: release it first
+		t.mu.Unlock()
+		notify(s.W)
+		t.mu.Lock()
+	}
 	switch t.Kind {
 	case "fail":
 		return world.FaultAction{Kind: "fail", Errno: 1105}, true
@@ -134,7 +151,7 @@ func (t *Tracker) sql(c *world.StmtCtx) (world.FaultAction, bool) {
 		return world.FaultAction{After: func(w *world.World) { world.CloseLater(w.CrashLockedExported(host)) }, DropReply: true}, true
 	case "kill-after":
 		in := s.InstByName(inst)
-		return world.FaultAction{After: func(w *world.World) { s.KillLocked(in) }, DropReply: true}, true
+		return world.FaultAction{After: func(w *world.World) { s.KillLocked(in); notify(w) }, DropReply: true}, true
 	case "session-expire":
 		return world.FaultAction{After: func(w *world.World) {
 			go s.ExpireSession(inst)
@@ -145,8 +162,8 @@ func (t *Tracker) sql(c *world.StmtCtx) (world.FaultAction, bool) {
 
 func (t *Tracker) dcsBefore(inst, method, path string) error {
 	t.mu.Lock()
-	defer t.mu.Unlock()
 	if !t.tracked(inst) || method == "Initialize" {
+		t.mu.Unlock()
 		return nil
 	}
 	k := "dcs|" + inst + "|" + path + "|" + method
@@ -154,9 +171,15 @@ func (t *Tracker) dcsBefore(inst, method, path string) error {
 	b := Boundary{Kind: "dcs", Who: inst, Host: path, Class: method, Occ: t.occ[k], Mut: method != "Get" && method != "GetChildren" && method != "AcquireLock"}
 	t.Seen = append(t.Seen, b)
 	if t.Target == nil || t.Hit || t.Target.Key() != b.Key() || t.Kind != "dcs-fail" {
+		t.mu.Unlock()
 		return nil
 	}
 	t.Hit = true
+	onInject := t.OnInject
+	t.mu.Unlock() // never hold the tracker's mutex while taking the world's (sql() runs under the world mutex)
+	if onInject != nil {
+		onInject(b, "dcs-fail", nil)
+	}
 	t.sc.S.W.Log(world.Event{Kind: "world", Who: "harness", Host: path, Class: "inject:dcs-fail", Arg: b.Key()})
 	return fmt.Errorf("zk: injected failure of %s %s", method, path)
 }
@@ -174,6 +197,8 @@ func (t *Tracker) dcsAfter(inst, method, path, res string) {
 	}
 	t.Hit = true
 	kind := t.Kind
+	onInject := t.OnInject
+	tb := *t.Target
 	t.mu.Unlock()
 	s := t.sc.S
 	s.W.Log(world.Event{Kind: "world", Who: "harness", Host: path, Class: "inject:" + kind, Arg: t.Target.Key()})
@@ -181,6 +206,9 @@ func (t *Tracker) dcsAfter(inst, method, path, res string) {
 	case "kill-after":
 		if in := s.InstByName(inst); in != nil {
 			s.Kill(in.Host)
+		}
+		if onInject != nil {
+			onInject(tb, kind, nil)
 		}
 	case "session-expire":
 		s.ExpireSession(inst)
